@@ -323,7 +323,8 @@ func checkValue(ctx *sql.Context, col *sql.Column, v any) *violation {
 		if tm.IsZero() || tm.Equal(types.ZeroTime) {
 			return nil // the zero date
 		}
-		if tm.Before(dt.MinimumTime()) || tm.After(dt.MaximumTime()) {
+		// MaximumTime carries no fraction (9999-12-31 23:59:59); values up to .999999 of that second are valid
+		if tm.Before(dt.MinimumTime()) || !tm.Before(dt.MaximumTime().Add(time.Second)) {
 			return &violation{vRange, fmt.Sprintf("%s outside %s..%s", tm.UTC().Format(time.RFC3339Nano), dt.MinimumTime().Format(time.RFC3339), dt.MaximumTime().Format(time.RFC3339))}
 		}
 		if types.IsDateType(t) {
